@@ -3,6 +3,7 @@ package main
 import (
 	"fmt"
 	"go/token"
+	"sort"
 	"strings"
 
 	"golang.org/x/tools/go/ssa"
@@ -125,6 +126,127 @@ func rulesC09(p *Prog, r *Report) {
 				}
 			}
 			r.OK("R09.1", construct, "reachable only through "+st.guard.Name+"; ratio computed from the position's own record", p.instrPos(cs))
+		}
+	}
+
+	// R09.8 sweep cursors do not collide ------------------------------------------------------
+	// Each sweep keeps its offset in a record (prefix, id). Two different sweeps invoked with the
+	// same constant id under the same prefix share one cursor: each starts where the other list's
+	// sweep ended and some positions are never visited.
+	r.Rule("R09.8", "different sweeps keep their offsets under different (prefix, id) keys", 2)
+	{
+		type use struct {
+			fn  *ssa.Function
+			pos string
+		}
+		keys := map[string][]use{}
+		for _, fn := range p.Funcs {
+			m := moduleOf(fn)
+			if (m != "liquidationsV2" && m != "liquidation") || p.isAuxFn(fn) {
+				continue
+			}
+			for _, c := range calls(fn) {
+				if !p.callIs(c, "GetLiquidationOffsetHolder") {
+					continue
+				}
+				prefix := ""
+				var idVals []ssa.Value
+				for _, a := range callArgs(c) {
+					if isUint64(a.Type()) {
+						idVals = append(idVals, a)
+					} else if u, ok := a.(*ssa.UnOp); ok {
+						if g, isG := u.X.(*ssa.Global); isG {
+							prefix = g.Name()
+						}
+					} else if sv, ok := constString(a); ok {
+						prefix = sv
+					}
+				}
+				if prefix == "" || len(idVals) != 1 {
+					continue
+				}
+				var consts []string
+				switch x := idVals[0].(type) {
+				case *ssa.Const:
+					consts = append(consts, x.Value.ExactString())
+				case *ssa.Parameter:
+					idx := paramIndex(x)
+					for _, cs := range p.CallSitesOf(fn) {
+						if args := cs.Common().Args; idx < len(args) {
+							if cv, ok := args[idx].(*ssa.Const); ok && cv.Value != nil {
+								consts = append(consts, cv.Value.ExactString())
+							}
+						}
+					}
+				default:
+					if cv, ok := idVals[0].(*ssa.Convert); ok {
+						if k, isC := cv.X.(*ssa.Const); isC && k.Value != nil {
+							consts = append(consts, k.Value.ExactString())
+						}
+					}
+				}
+				for _, k := range consts {
+					key := m + ":" + prefix + "/" + k
+					keys[key] = append(keys[key], use{fn, p.instrPos(c)})
+				}
+			}
+		}
+		var ks []string
+		for k := range keys {
+			ks = append(ks, k)
+		}
+		sort.Strings(ks)
+		for _, k := range ks {
+			r.Instance("R09.8")
+			fns := map[*ssa.Function]bool{}
+			var names []string
+			for _, u := range keys[k] {
+				if !fns[u.fn] {
+					fns[u.fn] = true
+					names = append(names, fname(u.fn))
+				}
+				r.FuncsSeen[fname(u.fn)] = true
+			}
+			sort.Strings(names)
+			construct := "sweep cursor " + k
+			if len(fns) > 1 {
+				r.Fail("R09.8", construct, fmt.Sprintf("the sweeps %v keep their offset under the same key: each resumes where the other list's sweep stopped, so positions are skipped block after block and unsafe ones are never seized", names), keys[k][0].pos, nil)
+			} else {
+				r.OK("R09.8", construct, "used by one sweep only ("+names[0]+")", keys[k][0].pos)
+			}
+		}
+	}
+
+	// R09.9 the lend position outlives its other borrows -----------------------------------------
+	// Seizing one borrow takes its collateral out of the lend position; the position itself is
+	// removed only when nothing is left in it (other borrows of the same position must stay
+	// liquidatable: their sweep step looks the lend position up).
+	r.Rule("R09.9", "a seizure deletes the lend position only behind remaining collateral <= 0", 1)
+	{
+		isLeft := func(v ssa.Value) bool {
+			return p.fromRecordFieldsLoose(v, map[string]bool{"LendAsset": true}, map[string]bool{"AmountIn": true})
+		}
+		g := p.cmpGuard("lend AmountIn <= 0", isLeft, isZeroValue, RLE)
+		for _, fn := range p.Funcs {
+			m := moduleOf(fn)
+			if (m != "liquidationsV2" && m != "liquidation") || p.isAuxFn(fn) {
+				continue
+			}
+			n := 0
+			for _, c := range calls(fn) {
+				if !p.callIs(c, "DeleteLendForAddressByAsset") {
+					continue
+				}
+				n++
+				r.Instance("R09.9")
+				r.FuncsSeen[fname(fn)] = true
+				construct := fmt.Sprintf("%s deletes lend #%d", fname(fn), n)
+				if ok, w := p.GuardedSite(g, c); ok {
+					r.OK("R09.9", construct, "only when the position's remaining collateral is zero", p.instrPos(c))
+				} else {
+					r.Fail("R09.9", construct, "the lend position can be deleted while collateral of other open borrows is still recorded in it: those borrows can no longer be seized (their step fails on the missing position)", p.instrPos(c), w)
+				}
+			}
 		}
 	}
 
